@@ -4,6 +4,6 @@ import WcModel.Properties.C06
 #print axioms WcModel.C06.follow_flag
 #print axioms WcModel.C06.matchbase_prefix
 #print axioms WcModel.C06.link_not_entered
-#print axioms WcModel.unix_on_this_host
 #print axioms WcModel.C06.real_link_rule
 #print axioms WcModel.C06.real_long_star
+#print axioms WcModel.unix_on_this_host
